@@ -129,10 +129,99 @@ def run(ctx):
         except model.Invalid:
             ctx.inconclusive += 1
             ctx.count("invalid_scenarios")
+    disappeared_family(ctx, rng, 250 if quick else 5000)
     ctx.rule = ("twin scenarios of 3..8 statements (85%% with discovered deps, 35%% of generated headers without manifest path) x 1..4 "
                 "rounds of change sets + build; distinct_nontrivial = distinct (scenario, build step) twin comparisons in which at least "
                 "one statement with discovered dependencies was in the closure")
     ctx.assumptions = ["include sets are fixed during a history (the declared twin lists exactly the discovered names)"]
+
+
+def disappeared_family(ctx, rng, n):
+    """'A discovered dependency that has disappeared causes a rebuild instead of an error' - whatever else is out of date at
+    the same time.  A consumer reads an optional header (`#maybe`: read and reported only while it exists, as with
+    __has_include or a wildcard); after a complete build the header is deleted, alone or together with a touch of another
+    input's producer (restat producers leave their output alone, which makes ninja re-evaluate the consumer mid-build).
+    The build must succeed, re-run the consumer and leave the tree as a clean build would."""
+    jobs = []
+    for k in range(n):
+        g = gen.Gen(random.Random(rng.randint(0, 2 ** 60)), size=rng.randint(2, 6),
+                    feat=dict(deps=0.9, restat=0.5, phony=0.15, generator=0.0, rsp=0.05, vals=0.05, chain=0.9, dyndep=0.0, early=0.0))
+        sc = g.scenario("C10-%d-gone-%d" % (ctx.seed, k))
+        cons = [s for s in sc["stmts"] if s["kind"] == "cmd" and s["deps"] != "none"]
+        if not cons:
+            continue
+        c = rng.choice(cons)
+        opt = "opt_%s.h" % c["id"]
+        sc["sources"][opt] = "// optional header\n"
+        sc["sources"][c["ins"][0]] = "#maybe %s\n" % opt + sc["sources"][c["ins"][0]]
+        sc["defaults"] = []
+        steps = [{"op": "build", "targets": [], "j": 2, "k": 1, "sched": {"mode": "prng", "seed": 1}},
+                 {"op": "build", "targets": [], "j": 2, "k": 1, "sched": {"mode": "prng", "seed": 2}},
+                 {"op": "rm", "path": opt}]
+        cur = copy.deepcopy(sc)
+        del cur["sources"][opt]
+        # something else at the same time: touch the source of a producer of one of the consumer's other inputs
+        others = [s for s in sc["stmts"] if s["kind"] == "cmd" and s is not c and any(o in c["ins"] + c["iins"] + c["oins"] for o in all_outs(s))]
+        touched = None
+        if others and rng.random() < 0.7:
+            p_ = rng.choice(others)
+            touched = p_["ins"][0]
+            steps.append({"op": "touch", "path": touched})
+        steps.append({"op": "build", "targets": rng.choice(([], [c["outs"][0]])), "j": rng.choice((1, 2, 3)), "k": 1,
+                      "sched": {"mode": "prng", "seed": rng.randint(1, 10 ** 6)}})
+        steps.append(dict(steps[-1], sched={"mode": "prng", "seed": 7}))
+        jobs.append((simlib.scenario_json(sc, steps), sc, cur, c, opt, touched))
+    res = {}
+
+    def handler(scn, results, err):
+        res[scn["id"]] = results
+    simlib.run_scenarios([j[0] for j in jobs], handler)
+    for scn, sc, cur, c, opt, touched in jobs:
+        r = res.get(scn["id"])
+        if not r:
+            ctx.inconclusive += 1
+            continue
+        builds = [x for x in r if x.get("op") == "build"]
+        if len(builds) < 4 or any(b.get("trace", {}).get("crash") for b in builds):
+            crash = next((b["trace"] for b in builds if b.get("trace", {}).get("crash")), None)
+            if crash:
+                ctx.violation("C10/nsim-crash/" + (util.san_signature(crash.get("stderr", "")) or "crash"), "%s: %s" % (scn["id"], crash.get("stderr", "")[-1200:]), {"scenario": scn})
+            else:
+                ctx.inconclusive += 1
+            continue
+        if builds[0]["trace"]["result"].get("exit") != 0 or builds[1]["trace"]["result"].get("exit") != 0:
+            ctx.inconclusive += 1
+            ctx.count("setup_failed")
+            continue
+        recorded = c["deps"] == "depfile" or True
+        t3, t4 = builds[2]["trace"], builds[3]["trace"]
+        ctx.evaluations += 1
+        ctx.count("disappeared_dependency_scenarios")
+        ctx.nontrivial(("gone", scn["id"]))
+        rep = {"scenario": scn, "consumer": c["id"], "deleted": opt, "also_touched": touched}
+        what = "scenario %s: %s (deps=%s%s) had recorded %s, which was then deleted%s" % (
+            scn["id"], c["outs"][0], c["deps"], ", restat" if c["restat"] else "", opt, " while %s was touched" % touched if touched else "")
+        if t3["result"].get("exit") != 0:
+            ctx.violation("C10/disappeared-dependency/error", "%s: the build fails: %s" % (what, t3["result"].get("err")), rep)
+            continue
+        started = [e["o"] for e in t3["events"] if e["e"] == "S"]
+        if c["outs"][0] not in started:
+            ctx.violation("C10/disappeared-dependency/consumer-not-rerun%s" % ("/with-other-change" if touched else ""),
+                          "%s: the build ran %s and exits 0" % (what, started), rep)
+            continue
+        graph = model.Graph(cur, {p_: v[1] for p_, v in t3["world"]["files"].items() if p_ in cur["sources"]})
+        clean, _ = graph.clean()
+        tg3 = scn["steps"][-2]["targets"] or gen.Gen.roots(cur)
+        inclosure = graph.closure(tg3)
+        bad = [o for s_ in cur["stmts"] if s_["kind"] == "cmd" and s_["id"] in inclosure for o in all_outs(s_)
+               if t3["world"]["files"].get(o, [0, None])[1] != clean.get(o)]
+        if bad:
+            ctx.violation("C10/disappeared-dependency/tree-differs", "%s: %s differs from a clean build afterwards" % (what, bad[:3]), rep)
+            continue
+        if t4["result"].get("exit") != 0 or [e for e in t4["events"] if e["e"] == "S"]:
+            ctx.violation("C10/disappeared-dependency/not-converged", "%s: the next build runs %s" % (what, [e["o"] for e in t4["events"] if e["e"] == "S"]), rep)
+            continue
+        ctx.count("disappeared_dependency_ok")
 
 
 def judge_pair(ctx, sD, sM, rD, rM, meta):
